@@ -41,4 +41,34 @@ func init() {
 		},
 		Thorough: func(c *Ctx) { ruleCONF4(c) },
 	})
+
+	register(&PropSpec{
+		ID:    "C19",
+		Level: "other",
+		Explanation: "Structural necessary conditions of the numbering chain, each a writer/reader agreement visible in source: the constant block and _TokenToString are generated from one range over Grammar.Terminals with value = range key (NUM-1); Terminal.Index is the position in Grammar.Terminals and nothing reorders that list (NUM-2); EOF and ERROR are created first, unconditionally, and equal the reference driver's constants (NUM-3); accept actions carry Terminal.Index through the lexer table into Token() (NUM-4); parser action rows are keyed by Terminal.Index and looked up by the id ReadToken returned (NUM-5); only token and @external declarations create terminals, once, after a successful name registration (NUM-6). " +
+			"NOT decided: the actual numbers emitted for a concrete specification, density across several .lox files (depends on filepath.Glob order).",
+		Assumptions: []string{"simplelexer v0.5.0 in the module cache is the reference driver"},
+		Run: func(c *Ctx) {
+			ruleNUM1(c)
+			ruleNUM2(c)
+			ruleNUM3(c)
+			ruleNUM4(c)
+			ruleNUM5(c)
+			ruleNUM6(c)
+		},
+	})
+	register(&PropSpec{
+		ID:    "C10",
+		Level: "other",
+		Explanation: "Decides that the table encoder (Go code in internal/codegen) and the decoder (runtime code inside the templates) agree on the format, and that row compression is structurally lossless: lexer row layout and strides (FMT-1), ranges sorted by the comparator the binary search assumes (FMT-2), action codes equal on both sides and equal to the reference driver's result codes (FMT-3), non-greedy flag bit (FMT-4), row dedup key / index rebase / row prologue shared by all readers (FMT-5), parser action/goto encoding and index=position of productions, rules and states (FMT-6). " +
+			"NOT decided: that subset construction, partition refinement and range merging preserve the language of a mode (behavioural; needs exploring automata), nor disjointness of emitted ranges.",
+		Run: func(c *Ctx) {
+			ruleFMT1(c)
+			ruleFMT2(c)
+			ruleFMT3(c)
+			ruleFMT4(c)
+			ruleFMT5(c)
+			ruleFMT6(c)
+		},
+	})
 }
